@@ -322,7 +322,33 @@ func c02(r *mon.Run) {
 			res, _, _ := cx.runBoth(tree, gen.SpellTight(tree), doc)
 			c02Account(t, tree, gen.SpellTight(tree), doc, res, i)
 		}}
-	r.Exec(exh, rnd, typed, lng, fcw, fnw, kindPairsWorkload(r, "C02"))
+	// every chain of one or two steps over a list that another construct hands over (parenthesis, pipe, multi-select, not_null,
+	// ||, &&, a projection, a slice, a flatten, map, to_array, a double reverse, values(), max_by ...): the projection runs over
+	// what the construct yields - nothing carried over from the construct's own loop (its nulls, its spare capacity, its scope)
+	hprods := argProducers()
+	S2 := len(c02Steps)
+	hdocs := []interface{}{pdocs[0], docs.J(`{"a":[{"a":1,"b":[1,null]},null,{"a":null,"b":2},[{"a":3}],{"a":[4,[5]],"b":{"a":6}}],"b":[0],"z":null,"ao":[]}`), docs.J(`{"a":{"a":[1,2],"b":null},"b":"s","z":null,"ao":[]}`), docs.J(`{"a":[],"b":null,"z":null,"ao":[]}`), docs.J(`{"a":[[1,null],[null],[],[[2]]],"b":[[0]],"z":null,"ao":[]}`)}
+	HD := len(hdocs)
+	hw := mon.Workload{Name: "projections-over-lists-produced-by-other-constructs", N: len(hprods) * (S2 + S2*S2) * HD, Batch: 4000,
+		Do: func(i int, t *mon.Tally) {
+			doc := hdocs[i%HD]
+			k := i / HD
+			pi := k % len(hprods)
+			k /= len(hprods)
+			var steps []gen.Step
+			if k < S2 {
+				steps = []gen.Step{c02Steps[k]}
+			} else {
+				k -= S2
+				steps = []gen.Step{c02Steps[k/S2], c02Steps[k%S2]}
+			}
+			tree := gen.Chain(hprods[pi](gen.Field("a")), steps...)
+			expr := gen.SpellTight(tree)
+			cx := &caseCtx{r, t, "projections-over-lists-produced-by-other-constructs", i}
+			res, _, _ := cx.runOne(tree, expr, doc)
+			c02Account(t, tree, expr, doc, res, i)
+		}}
+	r.Exec(exh, rnd, typed, lng, fcw, fnw, kindPairsWorkload(r, "C02"), hw)
 }
 
 func c02Account(t *mon.Tally, tree *gen.Expr, expr string, doc interface{}, res ref.Result, i int) {
